@@ -259,7 +259,7 @@ def run(ctx):
     drv = ctx.driver("drv_c03")
     if not exe or not exew or not drv:
         return
-    ncases, maxlen = (120, 40) if ctx.quick else (300, 120)
+    ncases, maxlen = (120, 40) if ctx.quick else (400, 150)
     ncases = int(os.environ.get('VERIF_NCASES', ncases))          # self-tests: fewer random histories
     cases = dsgen.load_corpus("C03")
     ctx.cov["corpus_cases"] = len(cases)
